@@ -19,9 +19,9 @@ def V(vid, prop, file, find, replace, expect, note=''):
     VARIANTS.append(dict(id=vid, prop=prop, file=file, find=find, replace=replace, expect=expect, note=note))
 
 
-def S(vid, props, file, find, replace, note=''):
+def S(vid, props, file, find, replace, note='', all=False):
     VARIANTS.append(dict(id=vid, prop=props[0], props=props, file=file, find=find, replace=replace, expect=None,
-                         silent=True, note=note))
+                         silent=True, note=note, all=all))
 
 
 # --------------------------------------------------------------------------------------------
@@ -715,6 +715,169 @@ S('silent-dns-guard-split', ['C19'], 'src/socket/dns.rs',
   """                if udp_repr.dst_port != pq.port || p.transaction_id() != pq.txid {""",
   """                if p.transaction_id() != pq.txid || udp_repr.dst_port != pq.port {""", 'disjunction reordered')
 
+
+# ---- behaviour-preserving edits aimed at the rules added in rounds 2 and 3 ------------------------------
+S('silent-tcp-rename-acceptability-flag', ['C17', 'C04'], T, 'segment_in_window', 'seg_acceptable', 'local renamed', all=True)
+S('silent-timer-flipped-compare', ['C13', 'C02', 'C17'], T,
+  """            Timer::Close { expires_at } if timestamp >= expires_at => true,""",
+  """            Timer::Close { expires_at } if expires_at <= timestamp => true,""", 'comparison flipped')
+S('silent-fast-retransmit-guard-order', ['C02'], T,
+  """                    if self.local_rx_dup_acks == 3 && !self.tx_buffer.is_empty() {""",
+  """                    if !self.tx_buffer.is_empty() && self.local_rx_dup_acks == 3 {""", 'conjuncts swapped')
+S('silent-propagate-carries-reordered', ['C08'], 'src/wire/ip.rs',
+  """        let sum = (word >> 16) + (word & 0xffff);
+        ((sum >> 16) as u16) + (sum as u16)""",
+  """        let sum = (word & 0xffff) + (word >> 16);
+        (sum as u16) + ((sum >> 16) as u16)""", 'operands of the folds swapped')
+S('silent-remove-contig-last-local', ['C15'], 'src/storage/assembler.rs',
+  """        for i in at..self.contigs.len() - 1 {
+            if !self.contigs[i].has_data() {
+                return;
+            }
+            self.contigs[i] = self.contigs[i + 1];
+        }
+
+        // Removing the last one.
+        self.contigs[self.contigs.len() - 1] = Contig::empty();""",
+  """        let last = self.contigs.len() - 1;
+        for i in at..last {
+            if !self.contigs[i].has_data() {
+                return;
+            }
+            self.contigs[i] = self.contigs[i + 1];
+        }
+
+        // Removing the last one.
+        self.contigs[last] = Contig::empty();""", 'bound hoisted into a local')
+S('silent-dns-emit-order', ['C06'], 'src/wire/dns.rs',
+  """        packet.set_question_count(1);
+        packet.set_answer_record_count(0);""",
+  """        packet.set_answer_record_count(0);
+        packet.set_question_count(1);""", 'independent setters swapped')
+S('silent-icmpv4-zero-first', ['C06', 'C10'], 'src/wire/icmpv4.rs',
+  """                packet.set_msg_type(Message::TimeExceeded);
+                packet.set_msg_code(reason.into());
+                // The second header word is unused in this message and must be zero.
+                NetworkEndian::write_u32(&mut packet.buffer.as_mut()[field::UNUSED], 0);
+""",
+  """                NetworkEndian::write_u32(&mut packet.buffer.as_mut()[field::UNUSED], 0);
+                packet.set_msg_type(Message::TimeExceeded);
+                packet.set_msg_code(reason.into());
+""", 'zeroing moved in front')
+S('silent-udp-close-order', ['C09'], 'src/socket/udp.rs',
+  """        self.tx_buffer.reset();
+        self.rx_buffer.reset();""",
+  """        self.rx_buffer.reset();
+        self.tx_buffer.reset();""", 'two resets swapped')
+S('silent-egress-permitted-flipped', ['C13', 'C16'], 'src/iface/socket_meta.rs',
+  """                } else if timestamp >= silent_until {""",
+  """                } else if silent_until <= timestamp {""", 'comparison flipped')
+S('silent-slaac-validity-order', ['C03'], 'src/wire/ndiscoption.rs',
+  """        self.flags.contains(PrefixInfoFlags::ADDRCONF)
+            && self.prefix_len <= 128""",
+  """        self.prefix_len <= 128
+            && self.flags.contains(PrefixInfoFlags::ADDRCONF)""", 'conjuncts swapped')
+S('silent-frag-slice-via-local', ['C08', 'C10', 'C12'], 'src/iface/interface/mod.rs',
+  """                        emit_ip(&ip_repr, &mut frag.buffer[..total_ip_len]);""",
+  """                        let datagram = &mut frag.buffer[..total_ip_len];
+                        emit_ip(&ip_repr, datagram);""", 'slice bound to a local first')
+
+
+# ---- harder behaviour-preserving refactorings ---------------------------------------------------------
+S('silent-process-udp-continue', ['C09', 'C11', 'C03'], 'src/iface/interface/udp.rs',
+  """            if udp_socket.accepts(self, &ip_repr, &udp_repr) {
+                udp_socket.process(self, meta, &ip_repr, &udp_repr, udp_packet.payload());
+                return None;
+            }
+        }
+""",
+  """            if !udp_socket.accepts(self, &ip_repr, &udp_repr) {
+                continue;
+            }
+            udp_socket.process(self, meta, &ip_repr, &udp_repr, udp_packet.payload());
+            return None;
+        }
+""", 'guard inverted with continue')
+S('silent-tcp-dispatch-now-local', ['C02', 'C13', 'C17'], T,
+  """        } else if self.timer.should_retransmit(cx.now()) {""",
+  """        } else if { let now = cx.now(); self.timer.should_retransmit(now) } {""", 'argument bound to a local')
+S('silent-ring-enqueue-assert-order', ['C14', 'C01'], 'src/storage/ring_buffer.rs',
+  """        let (size, result) = f(&mut self.storage[write_at..write_at + max_size]);
+        assert!(size <= max_size);
+        self.length += size;
+        (size, result)""",
+  """        let end = write_at + max_size;
+        let (size, result) = f(&mut self.storage[write_at..end]);
+        assert!(max_size >= size);
+        self.length = self.length + size;
+        (size, result)""", 'assert flipped, compound assignment expanded')
+S('silent-udp-recv-slice-early-len', ['C09'], UDPS,
+  """        let (buffer, endpoint) = self.recv().map_err(|_| RecvError::Exhausted)?;
+
+        if data.len() < buffer.len() {
+            return Err(RecvError::Truncated);
+        }
+
+        let length = min(data.len(), buffer.len());
+        data[..length].copy_from_slice(&buffer[..length]);
+        Ok((length, endpoint))""",
+  """        let (buffer, endpoint) = self.recv().map_err(|_| RecvError::Exhausted)?;
+        let length = buffer.len();
+        if length > data.len() {
+            return Err(RecvError::Truncated);
+        }
+        data[..length].copy_from_slice(buffer);
+        Ok((length, endpoint))""", 'guard restated on a local')
+S('silent-tcp-ack-check-swapped-tests', ['C05', 'C01', 'C04'], T,
+  """                if ack_number < ack_min {
+                    net_debug!(
+                        "duplicate ACK ({} not in {}...{})",
+                        ack_number,
+                        ack_min,
+                        ack_max
+                    );
+                    return None;
+                }
+
+                if ack_number > ack_max {
+                    net_debug!(
+                        "unacceptable ACK ({} not in {}...{})",
+                        ack_number,
+                        ack_min,
+                        ack_max
+                    );
+                    return self.challenge_ack_reply(cx, ip_repr, repr);
+                }""",
+  """                if ack_max < ack_number {
+                    net_debug!(
+                        "unacceptable ACK ({} not in {}...{})",
+                        ack_number,
+                        ack_min,
+                        ack_max
+                    );
+                    return self.challenge_ack_reply(cx, ip_repr, repr);
+                }
+
+                if ack_min > ack_number {
+                    net_debug!(
+                        "duplicate ACK ({} not in {}...{})",
+                        ack_number,
+                        ack_min,
+                        ack_max
+                    );
+                    return None;
+                }""", 'the two acceptability tests swapped and flipped')
+S('silent-neighbor-lookup-match', ['C16'], 'src/iface/neighbor.rs',
+  """        if timestamp < self.silent_until {
+            Answer::RateLimited
+        } else {
+            Answer::NotFound
+        }""",
+  """        match timestamp < self.silent_until {
+            true => Answer::RateLimited,
+            false => Answer::NotFound,
+        }""", 'if rewritten as match on bool')
+
 S('silent-tcp-rename-local', ['C17'], T,
   """        let mut ack_of_fin = false;""",
   """        let mut ack_of_fin = false; let _unused_marker = 0u8;""", 'adds an unused local')
@@ -743,7 +906,7 @@ def run_variant(v, worker, repo='/repo'):
         p = os.path.join(d, v['file'])
         src = open(p).read()
         n = src.count(v['find'])
-        if n != 1:
+        if (n != 1 and not v.get('all')) or n == 0:
             return dict(id=v['id'], ok=False, why=f"anchor text occurs {n} times in {v['file']} (catalogue stale)")
         open(p, 'w').write(src.replace(v['find'], v['replace']))
         env = dict(os.environ)
